@@ -36,6 +36,35 @@ def make_cfg(rng, tag):
     m = statemodel.Model(cfg, nodes)
     return cfg, d, nodes, m, b0
 
+def other_getters(cfg):
+    """single-entity getters for the entities only the receiver thread writes"""
+    out = []
+    for b in cfg['boards']:
+        out += [f'periph {a["id"]}' for a in (b.get('peripherals') or [])] + [f'point {a["id"]}' for a in (b.get('points_board') or [])] + \
+               [f'signal {a["id"]}' for a in (b.get('signals_board') or [])] + [f'reverser {a["id"]}' for a in (b.get('reversers') or [])]
+        if cfggen.is_track_output(b):
+            out.append(f'to {b["id"]}')
+    return out
+
+def hot_entities(cfg, m):
+    """(getter line, feedback generator) per entity that only the receiver writes: the feedback changes exactly that entity"""
+    out = []
+    for b in cfg['boards']:
+        if not m.connected(b['id']):
+            continue
+        ad = m.addr[b['id']]
+        for a in (b.get('peripherals') or []):
+            out.append((f'periph {a["id"]}', lambda rng, a=a, ad=ad: (ad, C('MSG_LC_STAT'), bytes([a['port'][1], a['port'][0], rng.choice([x[1] for x in a['aspects']] + [rng.randrange(256)])]))))
+        for kind, nm in (('points_board', 'point'), ('signals_board', 'signal')):
+            for a in (b.get(kind) or []):
+                out.append((f'{nm} {a["id"]}', lambda rng, a=a, ad=ad: (ad, C('MSG_ACCESSORY_STATE'), bytes([a['number'], rng.choice([x[1] for x in a['aspects']] + [rng.randrange(128)]),
+                                                                                                                 2, rng.choice([0, 1, 2, 3]), rng.randrange(256)]))))
+        for sg in (b.get('segments') or []):
+            out.append((f'segment {sg["id"]}', lambda rng, sg=sg, ad=ad: (ad, C(rng.choice(['MSG_BM_OCC', 'MSG_BM_FREE'])), bytes([sg['address']]))))
+        if cfggen.is_track_output(b):
+            out.append((f'to {b["id"]}', lambda rng, ad=ad: (ad, C('MSG_CS_STATE'), bytes([rng.choice([0, 1, 2, 3, 4, 8])]))))
+    return out
+
 def group_of(bit):
     return 0 if bit <= 4 else 1 if bit <= 8 else 2 if bit <= 12 else 3 if bit <= 20 else 4
 
@@ -59,7 +88,7 @@ def gen_directed(ctx, k):
     idx = 0
     for i in range(rng.randrange(50, 90)):
         j = 1 + (i * 5 + k * 3) % kmax
-        kind = rng.choice(['rmw', 'rmw', 'recv', 'recv', 'queue'])
+        kind = rng.choice(['rmw', 'rmw', 'recv', 'recv', 'queue', 'getp', 'getp'])
         if kind == 'rmw':
             t = rng.choice(cfg['trains'])
             pa, pb = rng.sample(t['peripherals'], 2)
@@ -72,11 +101,22 @@ def gen_directed(ctx, k):
                                       [call('bidib_set_train_peripheral', S_(t['id']), S_(pb['id']), vb, S_(to))], j, fn, after=('flush', 'quiesce'))
             last_set[(t['id'], pa['id'])] = va
             last_set[(t['id'], pb['id'])] = vb
+        elif kind == 'getp':
+            # the GETTER is paused at its j-th scheduling point (e.g. right after it released the state mutex) and the receiver then processes a
+            # message that changes exactly the queried entity; the result must be the entity before or after it, and no access of the paused
+            # getter may be unordered with the receiver's update (TSan flavour)
+            hot = hot_entities(cfg, m)
+            if not hot:
+                continue
+            gl, fb = rng.choice(hot)
+            ad, ty, data = fb(rng)
+            sweep.add_two_thread_case(sc, idx, ['get ' + gl], [up(model.build_msg(ad, 0, ty, data)), 'settle'], 1 + (i * 3 + k) % (30 if fn else 8), fn, after=('quiesce',))
         elif kind == 'recv':
             ad, ty, data = gen_feedback(rng, m, cfg, nodes)
             if ty in (C('MSG_NODE_LOST'), C('MSG_NODE_NEW'), C('MSG_CS_DRIVE_MANUAL')):
                 continue
-            lines = [rng.choice(['get state x', 'get state x', f'get segment {rng.choice(segs)}' if segs else 'get state x', f'get booster {b0["id"]}'])
+            og = other_getters(cfg)
+            lines = [rng.choice(['get state x', f'get segment {rng.choice(segs)}' if segs else 'get state x', f'get booster {b0["id"]}'] + ['get ' + rng.choice(og)] * (3 if og else 0))
                      for _ in range(rng.randrange(1, 3))]
             sweep.add_receiver_case(sc, idx, [up(model.build_msg(ad, 0, ty, data))], lines, j, fn)
         else:
@@ -121,6 +161,7 @@ def gen_scenario(ctx, k, flavour, small=False):
     last_set = {}
     segs = [s_['id'] for b in cfg['boards'] for s_ in (b.get('segments') or [])]
     zr = gen.zero_response_names()
+    others = other_getters(cfg)
     addrs = [m.addr[b['id']] for b in cfg['boards'] if m.connected(b['id'])]
     for t in range(1, nt + 1):
         mine = [f for f in fns if owners[f] == t]
@@ -143,6 +184,8 @@ def gen_scenario(ctx, k, flavour, small=False):
                 sc.add(f't {t} get booster {b0["id"]}')
             elif r_ < 0.76:
                 sc.add(f't {t} get train {rng.choice(cfg["trains"])["id"]}')
+            elif r_ < 0.8 and others:
+                sc.add(f't {t} get ' + rng.choice(others))
             elif r_ < 0.84:
                 sc.add(f't {t} get state x')
             elif r_ < 0.9:
@@ -205,7 +248,7 @@ def evaluate(ctx, r, cfg, nodes, last_set, npong, nt, meta):
         lo = sum(1 for x in done_n if x < e['n0'])
         hi = min(sum(1 for x in pushed_n if x < e['n1']), len(S_seq) - 1)
         if e['kind'] == 'segment':
-            for key, q in e['r'].items():
+            for key, q in ((k_, v_) for k_, v_ in e['r'].items() if not k_.startswith('index:')):
                 sid = key.split(':', 1)[1]
                 g = got_view('segments', q)
                 if not any(view(S_seq[i], 'segments', sid) == g for i in range(lo, hi + 1)):
@@ -223,8 +266,30 @@ def evaluate(ctx, r, cfg, nodes, last_set, npong, nt, meta):
                 if bs['simple'] != ok:
                     ctx.violation('torn', 'booster', f'bidib_get_state(): booster {bs["id"]} power_state {bs["power_state"]:#x} with simple state {bs["simple"]} (written by one message)', r.scenario, r.flavour, meta)
                     return
+        elif e['kind'] in ('periph', 'point', 'signal', 'reverser', 'to'):
+            # entities written by the receiver thread only (board accessories, peripherals, reversers, track outputs): the result must be the
+            # value of the entity in one of the states that existed during the call - never a mixture of two updates, never freed memory
+            kind_of = {'periph': ('peripherals',), 'point': ('points_board',), 'signal': ('signals_board',), 'reverser': ('reversers',), 'to': ('track_outputs',)}[e['kind']]
+            for key, q in ((k_, v_) for k_, v_ in e['r'].items() if not k_.startswith('index:')):
+                eid = key.split(':', 1)[1]
+                mk = next((k_ for k_ in kind_of if eid in S_seq[0].st[k_]), None)
+                if mk is None or not isinstance(q, dict):
+                    continue
+                fields = [f for f in S_seq[0].st[mk][eid] if f in q]
+                ok = False
+                for i in range(lo, hi + 1):
+                    dd = []
+                    statemodel._cmp(key, {f: S_seq[i].st[mk][eid][f] for f in fields}, q, dd)
+                    if not dd:
+                        ok = True
+                        break
+                ctx.count('receiver_entity_results_checked')
+                if not ok:
+                    ctx.violation('never-existed', mk, f'{key} = { {f: q.get(f) for f in fields} } matches the entity in none of the states S{lo}..S{hi} that existed during the call '
+                                  f'(S{lo}: { {f: S_seq[lo].st[mk][eid][f] for f in fields} }, S{hi}: { {f: S_seq[hi].st[mk][eid][f] for f in fields} })', r.scenario, r.flavour, meta)
+                    return
         elif e['kind'] == 'booster':
-            for key, q in e['r'].items():
+            for key, q in ((k_, v_) for k_, v_ in e['r'].items() if not k_.startswith('index:')):
                 if q.get('known'):
                     ok = {0x80: 0, 0x81: 0, 0x82: 0, 0x84: 0, 0x00: 1, 0x03: 1, 0x04: 1, 0x05: 1, 0x06: 1}.get(q['power_state'], 2)
                     if q['simple'] != ok:
